@@ -1,7 +1,11 @@
 (* Proofs/ShippedReject.v — every single-rule violation ([mutation], Spec/PageTreeSpec.v) of a
    well-formed document fails the hand-written specification [spec_catalog] at some finite depth of
    the declarative semantics, hence does not conform. *)
+From PV Require Import Proofs.TypeCheckSound.
 From PV Require Import Spec.PageTreeSpec Proofs.ShippedApprox Proofs.ShippedKinds Proofs.ShippedAccept.
+
+(* [sk] = false, [full] = true: the full reading and every violation; [sk] = true, [full] = false: the
+   reading check_type implements and the violations it can see *)
 
 (* ---------- edits ---------- *)
 Definition edit_key (e : edit) : bytes := match e with EDrop k | ESet k _ => k end.
@@ -62,11 +66,13 @@ Variable d : doc.
 Hypothesis Hwf : wf_doc d.
 Variable im : oid.          (* the object edited *)
 Variable e : edit.
+Variable sk full : bool.
+Hypothesis Hsf : sk = false \/ full = false.
 Let oc := emit_ctx d.
 Let oc' := ctx_edit im e oc.
 Notation tc := spec_tctx.
 Notation opq := (shipped_opq_with nd).
-Notation A' := (approx opq oc' tc).
+Notation A' := (approxg opq oc' tc sk).
 
 Let Hnd : NoDup (List.map fst oc) := proj1 Hwf.
 
@@ -91,7 +97,7 @@ Qed.
 Lemma name_mismatch m v s allowed :
   bad_type allowed v -> In s allowed -> A' (S m) v (c_name_is s) = false.
 Proof.
-  intros [Hd Hn] Hs. apply (A_false_le _ _ _ 1); [lia|].
+  intros [Hd Hn] Hs. apply (A_false_le _ _ _ _ 1); [lia|].
   unfold c_name_is, c_name_in. rewrite A_S, A1_direct by auto. simpl.
   destruct v; try reflexivity. rewrite orb_false_r.
   rewrite bytes_eqb_neq; [reflexivity|]. intros ->. apply (Hn s eq_refl). exact Hs.
@@ -103,21 +109,30 @@ Proof.
 Qed.
 
 (* ---------- why a dictionary fails a list of entries ---------- *)
-Lemma fail_missing rec dd ents k c : In (DEnt k c KReq) ents -> dict_get dd k = None -> ents_ok rec dd ents = false.
+Lemma fail_missing rec dd ents k c : In (DEnt k c KReq) ents -> dict_get dd k = None -> ents_okg tc sk rec dd ents = false.
 Proof. intros Hin Hg. eapply ents_ok_false; eauto. simpl. rewrite Hg. exact I. Qed.
 Lemma fail_forbidden rec dd ents k c v :
-  In (DEnt k c KForb) ents -> dict_get dd k = Some v -> ents_ok rec dd ents = false.
+  In (DEnt k c KForb) ents -> dict_get dd k = Some v -> ents_okg tc sk rec dd ents = false.
 Proof. intros Hin Hg. eapply ents_ok_false; eauto. simpl. rewrite Hg. exact I. Qed.
 Lemma fail_value (rec : obj -> chk -> bool) dd ents k c o v :
-  In (DEnt k c o) ents -> dict_get dd k = Some v -> rec v c = false -> ents_ok rec dd ents = false.
-Proof. intros Hin Hg Hr. eapply ents_ok_false; eauto. simpl. rewrite Hg. destruct o; auto. Qed.
+  In (DEnt k c o) ents -> dict_get dd k = Some v -> sk && is_any tc c = false -> rec v c = false ->
+  ents_okg tc sk rec dd ents = false.
+Proof. intros Hin Hg Hna Hr. eapply ents_ok_false; eauto. simpl. rewrite Hg. destruct o; auto. Qed.
+
+(* the entry is looked at: always in the full reading; in the skipping reading unless its check has type Any *)
+Lemma na_full (c : chk) : full = true -> sk && is_any tc c = false.
+Proof. intros Hf. destruct Hsf as [->|Hx]; [reflexivity|congruence]. Qed.
+Lemma na_kind kd : full = true \/ kind_checked kd = true -> sk && is_any tc (chk_of_kind kd) = false.
+Proof. intros [Hf|Hk]; [apply na_full; exact Hf|]. rewrite (kind_not_any tc kd Hk). apply andb_false_r. Qed.
+Lemma sk_or_checked kd : full = true \/ kind_checked kd = true -> sk = false \/ kind_checked kd = true.
+Proof. intros [Hf|Hk]; auto. destruct Hsf as [Hs|Hx]; [auto|congruence]. Qed.
 
 (* ---------- a kid all of whose alternatives fail ---------- *)
 Definition fail_kid (m : nat) (j : oid) : Prop :=
   A' m (oref j) kid_of_nonroot = false /\ A' m (oref j) kid_of_root = false.
 
 Lemma ref_dict_fails m j dd ents :
-  value_of oc' (oref j) = ODict dd -> ents_ok (A' m) dd ents = false ->
+  value_of oc' (oref j) = ODict dd -> ents_okg tc sk (A' m) dd ents = false ->
   A' (S (S m)) (oref j) (CRep (TDict ents None) None IAllowed) = false.
 Proof.
   intros Hv Hf. unfold oref. rewrite A_ref_plain by reflexivity. fold (oref j). rewrite Hv.
@@ -126,8 +141,8 @@ Qed.
 
 Lemma kid_fails m j dd :
   value_of oc' (oref j) = ODict dd ->
-  ents_ok (A' m) dd page_ents = false -> ents_ok (A' m) dd template_ents = false ->
-  ents_ok (A' m) dd nonroot_ents = false ->
+  ents_okg tc sk (A' m) dd page_ents = false -> ents_okg tc sk (A' m) dd template_ents = false ->
+  ents_okg tc sk (A' m) dd nonroot_ents = false ->
   fail_kid (S (S (S m))) j.
 Proof.
   intros Hv Hp Ht Hn.
@@ -135,7 +150,7 @@ Proof.
   assert (H2 : A' (S (S m)) (oref j) spec_template = false) by (apply (ref_dict_fails m j dd); auto).
   assert (H3 : A' (S (S m)) (oref j) spec_nonroot = false) by (apply (ref_dict_fails m j dd); auto).
   assert (H4 : A' (S (S m)) (oref j) (CNamed n_nonroot) = false).
-  { rewrite A_S. rewrite (A1_named opq oc' tc _ _ n_nonroot spec_nonroot_rep) by reflexivity.
+  { rewrite A_S. rewrite (A1_named opq oc' tc _ _ _ n_nonroot spec_nonroot_rep) by reflexivity.
     rewrite <- A_S. exact H3. }
   unfold fail_kid, kid_of_nonroot, kid_of_root. rewrite !A_S, !A1_disj. cbn [existsb].
   rewrite H1, H2, H3, H4. simpl. rewrite !andb_false_r. auto.
@@ -213,28 +228,28 @@ Lemma type_value_fails (dd : list (bytes * obj)) v ents s :
   ESet k_Type v = e ->
   bad_type [B "Pages"; B "Page"; B "Template"] v -> In s [B "Pages"; B "Page"; B "Template"] ->
   In (req k_Type (c_name_is s)) ents ->
-  ents_ok (A' M) (edit_dict e dd) ents = false.
+  ents_okg tc sk (A' M) (edit_dict e dd) ents = false.
 Proof.
-  intros He Hb Hs Hin. eapply fail_value; eauto.
+  intros He Hb Hs Hin. eapply fail_value; eauto; try apply andb_false_r.
   - apply edit_set_get. exact He.
   - eapply name_mismatch; eauto.
 Qed.
 Lemma type_dropped_fails (dd : list (bytes * obj)) ents c :
-  EDrop k_Type = e -> In (req k_Type c) ents -> ents_ok (A' M) (edit_dict e dd) ents = false.
+  EDrop k_Type = e -> In (req k_Type c) ents -> ents_okg tc sk (A' M) (edit_dict e dd) ents = false.
 Proof. intros He Hin. eapply fail_missing; eauto. apply edit_drop_get. exact He. Qed.
 
 (* a kid of another type: its /Type name is not the one the alternative wants *)
 Lemma wrong_type_fails dd ents s s' :
   edit_key e <> k_Type ->
   dict_get dd k_Type = Some (OName s') -> s <> s' -> In (req k_Type (c_name_is s)) ents ->
-  ents_ok (A' M) (edit_dict e dd) ents = false.
+  ents_okg tc sk (A' M) (edit_dict e dd) ents = false.
 Proof.
-  intros Hk Hg Hne Hin. eapply fail_value; eauto.
+  intros Hk Hg Hne Hin. eapply fail_value; eauto; try apply andb_false_r.
   - rewrite edit_other; eauto.
   - apply names_differ. exact Hne.
 Qed.
 Lemma count_missing_fails dd :
-  edit_key e <> k_Count -> dict_get dd k_Count = None -> ents_ok (A' M) (edit_dict e dd) nonroot_ents = false.
+  edit_key e <> k_Count -> dict_get dd k_Count = None -> ents_okg tc sk (A' M) (edit_dict e dd) nonroot_ents = false.
 Proof.
   intros Hk Hg. eapply fail_missing; [apply in_nonroot_count|]. rewrite edit_other; auto.
 Qed.
@@ -245,7 +260,7 @@ Proof. apply table_fine_neq. Qed.
 Lemma leaf_fails p k is_page :
   In (p, k) (doc_kids d) -> kid_id k = im ->
   (is_page = true -> exists i a, k = KPage i a) -> (is_page = false -> exists i a, k = KTemplate i a) ->
-  leaf_violation oc' is_page e ->
+  leaf_violation full oc' is_page e ->
   fail_kid (S (S (S M))) im.
 Proof.
   intros Hin Hid Hpg Htp Hv.
@@ -256,20 +271,20 @@ Proof.
   pose proof (kid_get_type p k) as Hty. pose proof (leaf_get_count p k Hok Hleaf) as Hcnt.
   destruct tables_fine as [Hf1 [Hf2 _]].
   remember e as e0 eqn:He in Hv.
-  apply (kid_fails M im _ Hval); destruct Hv as [|v Hb|Hp|v Hp Hd|v Hp|k0 kd v Hk Hd Hbad].
+  apply (kid_fails M im _ Hval); destruct Hv as [|v Hb|Hp|v Hfull Hp Hd|v Hp|k0 kd v Hck Hk Hd Hbad].
   (* --- page alternative --- *)
   - eapply type_dropped_fails; eauto using in_page_type.
   - eapply type_value_fails; eauto using in_page_type. simpl; auto.
   - eapply fail_missing; [apply in_page_parent|]. apply edit_drop_get. exact He.
-  - eapply fail_value; [apply in_page_parent|apply edit_set_get; exact He|].
-    apply (A_false_le _ _ _ 1); [lia|]. apply A_any_req_direct. exact Hd.
+  - eapply fail_value; [apply in_page_parent|apply edit_set_get; exact He|apply na_full; assumption|].
+    apply (A_false_le _ _ _ _ 1); [lia|]. apply A_any_req_direct. exact Hd.
   - (* template with /Parent: as a page its /Type is wrong *)
     destruct (Htp Hp) as [i [a ->]].
     eapply (wrong_type_fails _ page_ents (B "Page") (B "Template")); eauto using in_page_type; try discriminate.
     rewrite <- He. discriminate.
   - destruct is_page; [change (In (k0, kd) page_table) in Hk | change (In (k0, kd) template_table) in Hk].
-    + eapply fail_value; [apply in_page_opt; eassumption|apply edit_set_get; exact He|].
-      apply kind_complete; assumption.
+    + eapply fail_value; [apply in_page_opt; eassumption|apply edit_set_get; exact He|apply na_kind; assumption|].
+      apply kind_complete; auto using sk_or_checked.
     + destruct (Htp eq_refl) as [i [a ->]].
       eapply (wrong_type_fails _ page_ents (B "Page") (B "Template")); eauto using in_page_type; try discriminate.
       rewrite <- He. simpl. eapply (table_key_neq template_table); eauto. simpl; auto.
@@ -287,8 +302,8 @@ Proof.
       eapply fail_forbidden; [apply in_template_parent|].
       rewrite edit_other; [apply page_get_parent|]. rewrite <- He. simpl.
       intros Heq. symmetry in Heq. revert Heq. eapply (table_key_neq page_table); eauto. simpl; auto.
-    + eapply fail_value; [apply in_template_opt; eassumption|apply edit_set_get; exact He|].
-      apply kind_complete; assumption.
+    + eapply fail_value; [apply in_template_opt; eassumption|apply edit_set_get; exact He|apply na_kind; assumption|].
+      apply kind_complete; auto using sk_or_checked.
   (* --- inner-node alternative: a page or template has no /Count (or no /Type) --- *)
   - eapply type_dropped_fails; eauto using in_nonroot_type.
   - eapply type_value_fails; eauto using in_nonroot_type. simpl; auto.
@@ -302,35 +317,63 @@ Qed.
 
 (* ---------- nodes ---------- *)
 Lemma direct_fails_kid x l : is_refb x = false -> A' 2 x (CRep (TDisj l) None IReq) = false.
-Proof. intros Hx. rewrite A_S, A1_disj. rewrite (A_any_req_direct opq oc' tc 0 x Hx). reflexivity. Qed.
+Proof. intros Hx. rewrite A_S, A1_disj. rewrite (A_any_req_direct opq oc' tc sk 0 x Hx). reflexivity. Qed.
+
+(* a reference to no object denotes null, which is no kid *)
+Lemma dangling_value j : octx_get oc' j = None -> value_of oc' (oref j) = ONull.
+Proof. intros H. destruct j as [a b]. unfold oref, value_of. cbn [fst snd deref]. rewrite H. reflexivity. Qed.
+Lemma null_fails_dict ents : A' 1 ONull (CRep (TDict ents None) None IAllowed) = false.
+Proof. rewrite A_S, A1_direct by reflexivity. reflexivity. Qed.
+Lemma dangling_fails_kid j :
+  octx_get oc' j = None ->
+  A' 3 (oref j) kid_of_nonroot = false /\ A' 3 (oref j) kid_of_root = false.
+Proof.
+  intros H. pose proof (dangling_value j H) as Hv.
+  assert (Hd : forall ents, A' 2 (oref j) (CRep (TDict ents None) None IAllowed) = false).
+  { intros ents. unfold oref. rewrite A_ref_plain by reflexivity. fold (oref j). rewrite Hv. apply null_fails_dict. }
+  assert (Hn : A' 2 (oref j) (CNamed n_nonroot) = false).
+  { rewrite A_S. rewrite (A1_named opq oc' tc _ _ _ n_nonroot spec_nonroot_rep) by reflexivity.
+    rewrite <- A_S. apply Hd. }
+  assert (H1 : A' 2 (oref j) spec_page = false) by apply Hd.
+  assert (H2 : A' 2 (oref j) spec_template = false) by apply Hd.
+  assert (H3 : A' 2 (oref j) spec_nonroot = false) by apply Hd.
+  split.
+  - unfold kid_of_nonroot. rewrite A_S, A1_disj. cbn [existsb]. rewrite H1, H2, Hn. simpl. apply andb_false_r.
+  - unfold kid_of_root. rewrite A_S, A1_disj. cbn [existsb]. rewrite H1, H2, H3. simpl. apply andb_false_r.
+Qed.
 
 Lemma node_ents_fail (is_root : bool) l dd ks :
-  node_violation is_root ks e ->
-  ents_ok (A' M) (edit_dict e dd) (node_ents (CRep (TDisj l) None IReq) (if is_root then KForb else KReq)) = false.
+  (forall j, octx_get oc' j = None -> A' 3 (oref j) (CRep (TDisj l) None IReq) = false) ->
+  node_violation full oc' is_root ks e ->
+  ents_okg tc sk (A' M) (edit_dict e dd) (node_ents (CRep (TDisj l) None IReq) (if is_root then KForb else KReq)) = false.
 Proof.
-  intros Hv. remember e as e0 eqn:He in Hv. unfold node_ents.
-  destruct Hv as [| | |v Hb|v Hd Hi|v Hd Ha|v [pre [x [post [Hx [-> _]]]]]|v Hr|Hr|v Hr Hd].
+  intros Hdang Hv. remember e as e0 eqn:He in Hv. unfold node_ents.
+  destruct Hv as [| | |v Hb|v Hd Hi|v Hd Ha|v [pre [x [post [Hx [-> _]]]]]|v [pre [j [post [Hj ->]]]]|v Hr|Hr|v Hfull Hr Hd].
   - eapply fail_missing; [left; reflexivity|]. apply edit_drop_get. exact He.
   - eapply fail_missing; [right; left; reflexivity|]. apply edit_drop_get. exact He.
   - eapply fail_missing; [right; right; left; reflexivity|]. apply edit_drop_get. exact He.
-  - eapply fail_value; [left; reflexivity|apply edit_set_get; exact He|].
+  - eapply fail_value; [left; reflexivity|apply edit_set_get; exact He|apply andb_false_r|].
     eapply name_mismatch; eauto. destruct is_root; simpl; auto.
-  - eapply fail_value; [right; left; reflexivity|apply edit_set_get; exact He|].
-    apply (A_false_le _ _ _ 1); [lia|]. apply c_prim_direct; auto; destruct v; try reflexivity; discriminate.
-  - eapply fail_value; [right; right; left; reflexivity|apply edit_set_get; exact He|].
+  - eapply fail_value; [right; left; reflexivity|apply edit_set_get; exact He|apply andb_false_r|].
+    apply (A_false_le _ _ _ _ 1); [lia|]. apply c_prim_direct; auto; destruct v; try reflexivity; discriminate.
+  - eapply fail_value; [right; right; left; reflexivity|apply edit_set_get; exact He|apply andb_false_r|].
     apply c_not_array; auto.
-  - eapply fail_value; [right; right; left; reflexivity|apply edit_set_get; exact He|].
-    apply (A_false_le _ _ _ 3); [lia|]. apply (kids_array_fails 2 _ x).
+  - eapply fail_value; [right; right; left; reflexivity|apply edit_set_get; exact He|apply andb_false_r|].
+    apply (A_false_le _ _ _ _ 3); [lia|]. apply (kids_array_fails 2 _ x).
     + apply in_or_app. right. left. reflexivity.
     + apply direct_fails_kid. exact Hx.
+  - eapply fail_value; [right; right; left; reflexivity|apply edit_set_get; exact He|apply andb_false_r|].
+    apply (A_false_le _ _ _ _ 4); [lia|]. apply (kids_array_fails 3 _ (oref j)).
+    + apply in_or_app. right. left. reflexivity.
+    + apply Hdang. exact Hj.
   - subst is_root. eapply fail_forbidden; [right; right; right; left; reflexivity|]. apply edit_set_get. exact He.
   - subst is_root. eapply fail_missing; [right; right; right; left; reflexivity|]. apply edit_drop_get. exact He.
-  - subst is_root. eapply fail_value; [right; right; right; left; reflexivity|apply edit_set_get; exact He|].
-    apply (A_false_le _ _ _ 1); [lia|]. apply A_any_req_direct. exact Hd.
+  - subst is_root. eapply fail_value; [right; right; right; left; reflexivity|apply edit_set_get; exact He|apply na_full; assumption|].
+    apply (A_false_le _ _ _ _ 1); [lia|]. apply A_any_req_direct. exact Hd.
 Qed.
 
 Lemma node_fails p i c ks ex :
-  In (p, KNode i c ks ex) (doc_kids d) -> i = im -> node_violation false ks e -> fail_kid (S (S (S M))) im.
+  In (p, KNode i c ks ex) (doc_kids d) -> i = im -> node_violation full oc' false ks e -> fail_kid (S (S (S M))) im.
 Proof.
   intros Hin Hid Hv.
   destruct (doc_kid_facts d Hwf p _ Hin) as [Hctx _].
@@ -342,18 +385,19 @@ Proof.
   apply (kid_fails M im _ Hval).
   - (* as a page *)
     remember e as e0 eqn:He in Hv.
-    destruct Hv as [| | |v Hb|v Hd Hi|v Hd Ha|v Hk|v Hr|Hr|v Hr Hd];
+    destruct Hv as [| | |v Hb|v Hd Hi|v Hd Ha|v Hk|v Hk|v Hr|Hr|v Hfull Hr Hd];
       try (eapply (wrong_type_fails dd page_ents (B "Page") (B "Pages"));
            eauto using in_page_type; try discriminate; rewrite <- He; discriminate).
     + eapply type_dropped_fails; eauto using in_page_type.
     + eapply type_value_fails; eauto using in_page_type. simpl; auto.
   - (* as a template *)
     remember e as e0 eqn:He in Hv.
-    destruct Hv as [| | |v Hb|v Hd Hi|v Hd Ha|v Hk|v Hr|Hr|v Hr Hd].
+    destruct Hv as [| | |v Hb|v Hd Hi|v Hd Ha|v Hk|v Hk|v Hr|Hr|v Hfull Hr Hd].
     + eapply type_dropped_fails; eauto using in_template_type.
     + eapply fail_forbidden; [apply in_template_parent|]. rewrite edit_other; [exact Hpar|]. rewrite <- He. discriminate.
     + eapply fail_forbidden; [apply in_template_parent|]. rewrite edit_other; [exact Hpar|]. rewrite <- He. discriminate.
     + eapply type_value_fails; eauto using in_template_type. simpl; auto.
+    + eapply fail_forbidden; [apply in_template_parent|]. rewrite edit_other; [exact Hpar|]. rewrite <- He. discriminate.
     + eapply fail_forbidden; [apply in_template_parent|]. rewrite edit_other; [exact Hpar|]. rewrite <- He. discriminate.
     + eapply fail_forbidden; [apply in_template_parent|]. rewrite edit_other; [exact Hpar|]. rewrite <- He. discriminate.
     + eapply fail_forbidden; [apply in_template_parent|]. rewrite edit_other; [exact Hpar|]. rewrite <- He. discriminate.
@@ -362,7 +406,7 @@ Proof.
         eauto using in_template_type; try discriminate. rewrite <- He. discriminate.
     + eapply fail_forbidden; [apply in_template_parent|]. apply edit_set_get. exact He.
   - (* as an inner node *)
-    apply (node_ents_fail false _ dd ks Hv).
+    apply (node_ents_fail false _ dd ks); [|exact Hv]. intros j Hj. apply dangling_fails_kid. exact Hj.
 Qed.
 
 (* an unedited inner node one of whose kids fails *)
@@ -376,9 +420,9 @@ Proof.
   rewrite kid_obj_pairs in Hval.
   destruct (node_get p i c ks ex) as [Hpar [_ Hkids]].
   apply (kid_fails (S m) i _ Hval).
-  - eapply fail_value; [apply in_page_type|apply kid_get_type|]. apply names_differ. discriminate.
+  - eapply fail_value; [apply in_page_type|apply kid_get_type|apply andb_false_r|]. apply names_differ. discriminate.
   - eapply fail_forbidden; [apply in_template_parent|exact Hpar].
-  - eapply fail_value; [apply in_nonroot_kids|exact Hkids|].
+  - eapply fail_value; [apply in_nonroot_kids|exact Hkids|apply andb_false_r|].
     apply (kids_array_fails m _ (oref (kid_id x))); auto.
     apply in_map_iff. exists x. auto.
 Qed.
@@ -419,7 +463,7 @@ Lemma catalog_fails_by_pages m :
   A' (S m) (emit_root d) spec_catalog = false.
 Proof.
   intros H. unfold emit_root in *. unfold spec_catalog, c_plain. rewrite A_dict_plain.
-  eapply fail_value; [apply in_catalog_pages|reflexivity|]. apply H. reflexivity.
+  eapply fail_value; [apply in_catalog_pages|reflexivity|apply andb_false_r|]. apply H. reflexivity.
 Qed.
 
 Definition root_pairs : list (bytes * obj) := match root_obj d with ODict dd => dd | _ => [] end.
@@ -432,12 +476,12 @@ Lemma root_fails_by_kid m x :
   A' (S (S (S (S m)))) (emit_root d) spec_catalog = false.
 Proof.
   intros Hne Hx [_ Hf].
-  assert (Hents : ents_ok (A' (S m)) root_pairs root_ents = false).
-  { eapply fail_value; [right; right; left; reflexivity|reflexivity|].
+  assert (Hents : ents_okg tc sk (A' (S m)) root_pairs root_ents = false).
+  { eapply fail_value; [right; right; left; reflexivity|reflexivity|apply andb_false_r|].
     apply (kids_array_fails m _ (oref (kid_id x))); auto. apply in_map_iff. exists x. auto. }
   apply catalog_fails_by_pages. intros v Hv. simpl in Hv. inversion Hv; subst v. clear Hv.
   destruct (d_pages_direct d).
-  - apply (A_false_le _ _ _ (S (S m))); [lia|]. rewrite root_obj_pairs. unfold spec_root_node, c_plain.
+  - apply (A_false_le _ _ _ _ (S (S m))); [lia|]. rewrite root_obj_pairs. unfold spec_root_node, c_plain.
     rewrite A_dict_plain. exact Hents.
   - unfold spec_root_node, c_plain. apply (ref_dict_fails (S m) (d_root d) root_pairs); auto.
     rewrite <- root_obj_pairs. apply lookup_other; auto. apply root_in_ctx.
@@ -474,7 +518,7 @@ Qed.
 
 (* the root node itself is edited *)
 Lemma root_edit_fails :
-  d_root d = im -> d_pages_direct d = false -> node_violation true (d_kids d) e ->
+  d_root d = im -> d_pages_direct d = false -> node_violation full oc' true (d_kids d) e ->
   exists n, A' n (emit_root d) spec_catalog = false.
 Proof.
   intros Hid Hdir Hv. exists (S (S (S M))). apply catalog_fails_by_pages.
@@ -482,7 +526,7 @@ Proof.
   unfold spec_root_node, c_plain. rewrite Hid.
   apply (ref_dict_fails M im (edit_dict e root_pairs)).
   - apply lookup_edited. rewrite <- Hid, <- root_obj_pairs. apply root_in_ctx.
-  - apply (node_ents_fail true _ root_pairs (d_kids d) Hv).
+  - apply (node_ents_fail true _ root_pairs (d_kids d)); [|exact Hv]. intros j Hj. apply dangling_fails_kid. exact Hj.
 Qed.
 End Reject.
 
@@ -490,10 +534,12 @@ End Reject.
 Section CatReject.
 Variable nd : list (N * N).
 Variable d : doc.
+Variable sk full : bool.
+Hypothesis Hsf : sk = false \/ full = false.
 Let oc := emit_ctx d.
 Notation tc := spec_tctx.
 Notation opq := (shipped_opq_with nd).
-Notation A := (approx opq oc tc).
+Notation A := (approxg opq oc tc sk).
 
 Lemma in_catalog_type : In (req k_Type (c_name_is (B "Catalog"))) catalog_ents.
 Proof. left. reflexivity. Qed.
@@ -505,45 +551,67 @@ Proof.
   - right. right. apply in_map_iff. exists (k, kd). auto.
 Qed.
 
-Lemma cat_edit_fails e : cat_violation oc e -> exists n, A n (apply_edit e (emit_root d)) spec_catalog = false.
+Lemma cat_edit_fails e : cat_violation full oc e -> exists n, A n (apply_edit e (emit_root d)) spec_catalog = false.
 Proof.
   intros Hv. exists 7. unfold emit_root, apply_edit, spec_catalog, c_plain. rewrite A_dict_plain.
-  destruct Hv as [| |v Hb|v Hd Hdict|k kd v Hk Hd Hbad|k kd v Hk Hi Hd].
-  - eapply (ents_ok_false _ _ _ _ in_catalog_type). cbn [ent_key req opt]. rewrite edit_get, bytes_eqb_refl. exact I.
-  - eapply (ents_ok_false _ _ _ _ in_catalog_pages). cbn [ent_key req opt]. rewrite edit_get, bytes_eqb_refl. exact I.
-  - eapply (ents_ok_false _ _ _ _ in_catalog_type). cbn [ent_key req opt]. rewrite edit_get, bytes_eqb_refl. cbn [ent_opt ent_chk req opt].
-    destruct Hb as [Hd Hn]. apply (A_false_le _ _ _ 1); [lia|].
+  destruct Hv as [| |v Hb|v Hd Hdict|k kd v Hck Hk Hd Hbad|k kd v Hk Hi Hd].
+  - eapply (ents_ok_false _ _ _ _ _ _ in_catalog_type). cbn [ent_key req opt]. rewrite edit_get, bytes_eqb_refl. exact I.
+  - eapply (ents_ok_false _ _ _ _ _ _ in_catalog_pages). cbn [ent_key req opt]. rewrite edit_get, bytes_eqb_refl. exact I.
+  - eapply (ents_ok_false _ _ _ _ _ _ in_catalog_type). cbn [ent_key req opt]. rewrite edit_get, bytes_eqb_refl.
+    cbn [ent_opt ent_chk req opt]. split; [apply andb_false_r|].
+    destruct Hb as [Hd Hn]. apply (A_false_le _ _ _ _ 1); [lia|].
     unfold c_name_is, c_name_in. rewrite A_S, A1_direct by auto. simpl.
     destruct v; try reflexivity. rewrite orb_false_r.
     rewrite bytes_eqb_neq; [reflexivity|]. intros ->. apply (Hn _ eq_refl). simpl. auto.
-  - eapply (ents_ok_false _ _ _ _ in_catalog_pages). cbn [ent_key req opt]. rewrite edit_get, bytes_eqb_refl. cbn [ent_opt ent_chk req opt].
-    apply (A_false_le _ _ _ 1); [lia|]. unfold spec_root_node, c_plain. rewrite A_S, A1_direct by auto. simpl.
+  - eapply (ents_ok_false _ _ _ _ _ _ in_catalog_pages). cbn [ent_key req opt]. rewrite edit_get, bytes_eqb_refl.
+    cbn [ent_opt ent_chk req opt]. split; [apply andb_false_r|].
+    apply (A_false_le _ _ _ _ 1); [lia|]. unfold spec_root_node, c_plain. rewrite A_S, A1_direct by auto. simpl.
     destruct v; try discriminate; reflexivity.
-  - eapply (ents_ok_false _ _ _ _ (in_catalog_opt k kd Hk)). cbn [ent_key req opt]. rewrite edit_get, bytes_eqb_refl. cbn [ent_opt ent_chk req opt].
-    apply kind_complete; assumption.
-  - eapply (ents_ok_false _ _ _ _ (in_catalog_opt k kd Hk)). cbn [ent_key req opt]. rewrite edit_get, bytes_eqb_refl. cbn [ent_opt ent_chk req opt].
-    apply (A_false_le _ _ _ 1); [lia|]. apply kind_indirect_direct; assumption.
+  - eapply (ents_ok_false _ _ _ _ _ _ (in_catalog_opt k kd Hk)). cbn [ent_key req opt]. rewrite edit_get, bytes_eqb_refl.
+    cbn [ent_opt ent_chk req opt]. split.
+    + destruct Hck as [Hf|Hc].
+      * destruct Hsf as [->|Hx]; [reflexivity|congruence].
+      * rewrite (kind_not_any tc kd Hc). apply andb_false_r.
+    + apply kind_complete; auto. destruct Hck as [Hf|Hc]; auto. destruct Hsf as [Hs|Hx]; [auto|congruence].
+  - eapply (ents_ok_false _ _ _ _ _ _ (in_catalog_opt k kd Hk)). cbn [ent_key req opt]. rewrite edit_get, bytes_eqb_refl.
+    cbn [ent_opt ent_chk req opt]. split.
+    + destruct kd; try discriminate; apply andb_false_r.
+    + apply (A_false_le _ _ _ _ 1); [lia|]. apply kind_indirect_direct; assumption.
 Qed.
 End CatReject.
 
 (* ---------- every mutation is rejected ---------- *)
-Theorem spec_rejects nd d m :
-  wf_doc d -> mutation d m -> ~ conforms (shipped_opq_with nd) (fst m) spec_tctx (snd m) spec_catalog.
+Lemma spec_rejects_gen nd sk full d m :
+  sk = false \/ full = false -> wf_doc d -> mutation full d m ->
+  exists n, approxg (shipped_opq_with nd) (fst m) spec_tctx sk n (snd m) spec_catalog = false.
 Proof.
-  intros Hwf Hm Hc.
-  assert (Hex : exists n, approx (shipped_opq_with nd) (fst m) spec_tctx n (snd m) spec_catalog = false).
-  { destruct Hm as [e Hv|e Hdir Hv|p i c ks ex e Hin Hv|p i a e Hin Hv|p i a e Hin Hv]; simpl fst; simpl snd.
-    - apply cat_edit_fails. exact Hv.
-    - apply (root_edit_fails nd d Hwf (d_root d) e); auto.
-    - eapply (kid_failure_reaches_catalog nd d Hwf i e p (KNode i c ks ex)); [exact Hin|reflexivity|].
-      apply (node_fails nd d Hwf i e p i c ks ex Hin eq_refl Hv).
-    - eapply (kid_failure_reaches_catalog nd d Hwf i e p (KPage i a)); [exact Hin|reflexivity|].
-      apply (leaf_fails nd d Hwf i e p (KPage i a) true Hin eq_refl); auto.
-      + intros _. exists i, a. reflexivity.
-      + discriminate.
-    - eapply (kid_failure_reaches_catalog nd d Hwf i e p (KTemplate i a)); [exact Hin|reflexivity|].
-      apply (leaf_fails nd d Hwf i e p (KTemplate i a) false Hin eq_refl); auto.
-      + discriminate.
-      + intros _. exists i, a. reflexivity. }
-  destruct Hex as [n Hn]. rewrite (Hc n) in Hn. discriminate.
+  intros Hsf Hwf Hm.
+  destruct Hm as [e Hv|e Hdir Hv|p i c ks ex e Hin Hv|p i a e Hin Hv|p i a e Hin Hv]; simpl fst; simpl snd.
+  - apply (cat_edit_fails nd d sk full Hsf). exact Hv.
+  - apply (root_edit_fails nd d Hwf (d_root d) e sk full Hsf); auto.
+  - eapply (kid_failure_reaches_catalog nd d Hwf i e sk p (KNode i c ks ex)); [exact Hin|reflexivity|].
+    apply (node_fails nd d Hwf i e sk full Hsf p i c ks ex Hin eq_refl Hv).
+  - eapply (kid_failure_reaches_catalog nd d Hwf i e sk p (KPage i a)); [exact Hin|reflexivity|].
+    apply (leaf_fails nd d Hwf i e sk full Hsf p (KPage i a) true Hin eq_refl); auto.
+    + intros _. exists i, a. reflexivity.
+    + discriminate.
+  - eapply (kid_failure_reaches_catalog nd d Hwf i e sk p (KTemplate i a)); [exact Hin|reflexivity|].
+    apply (leaf_fails nd d Hwf i e sk full Hsf p (KTemplate i a) false Hin eq_refl); auto.
+    + discriminate.
+    + intros _. exists i, a. reflexivity.
+Qed.
+
+(* the full reading: every violation *)
+Theorem spec_rejects nd d m :
+  wf_doc d -> mutation true d m -> ~ conforms (shipped_opq_with nd) (fst m) spec_tctx (snd m) spec_catalog.
+Proof.
+  intros Hwf Hm Hc. destruct (spec_rejects_gen nd false true d m (or_introl eq_refl) Hwf Hm) as [n Hn].
+  rewrite <- approx_approxg in Hn. rewrite (Hc n) in Hn. discriminate.
+Qed.
+(* the reading check_type implements: every violation not located in an Any-typed entry *)
+Theorem spec_rejects_skip nd d m :
+  wf_doc d -> mutation false d m -> ~ conforms_skip (shipped_opq_with nd) (fst m) spec_tctx (snd m) spec_catalog.
+Proof.
+  intros Hwf Hm Hc. destruct (spec_rejects_gen nd true false d m (or_intror eq_refl) Hwf Hm) as [n Hn].
+  rewrite (Hc n) in Hn. discriminate.
 Qed.
